@@ -947,6 +947,20 @@ func (self *Analyzer) callArgs(fnType ast.FunctionType, args pAst.CallArgs, base
 	}
 }
 
+// Whether the base of a `spawn` is a variable, a parameter or a builtin holding a function value
+// (and not a function of this module or an imported function).
+func (self *Analyzer) spawnsFunctionValue(base pAst.Expression) bool {
+	if base.Kind() != pAst.IdentExpressionKind {
+		return true
+	}
+	variable, _, found := self.currentModule.getVar(base.(pAst.IdentExpression).Ident.Ident())
+	if !found {
+		return false
+	}
+	// (a builtin function is a host value as well: there is no compiled function a thread could start in)
+	return variable.Origin != ImportedVariableOriginKind
+}
+
 // TODO: also forbid invoking a spawn fn which returns a closure.
 // TODO: also completely rewrite this function, it is very obfuscated.
 func (self *Analyzer) callExpression(node pAst.CallExpression) ast.AnalyzedCallExpression {
@@ -969,6 +983,16 @@ func (self *Analyzer) callExpression(node pAst.CallExpression) ast.AnalyzedCallE
 		baseFn := base.Type().(ast.FunctionType)
 
 		arguments = self.callArgs(baseFn, node.Arguments, node.IsSpawn)
+
+		// A thread starts in a function which is known by name: the compiler has no way to start one in a
+		// function value (a variable, a parameter, a closure).
+		if node.IsSpawn && self.spawnsFunctionValue(node.Base) {
+			self.error(
+				"Only a function can be spawned, not a value of a function type",
+				[]string{"Consider spawning a function which calls this value"},
+				base.Span(),
+			)
+		}
 
 		// lookup the result type of the function
 		thisExpressionResultsIn = baseFn.ReturnType
